@@ -82,7 +82,29 @@ def segment_lookup(ctx, prog):
         ctx.unknown('T9.seg', gp.fq, 'no per-segment lookup found', gp.loc)
 
 
+def immutable_rebuild(ctx, prog):
+    """default_exit: when the new parent cannot be filled in place (tuple, frozenset: AttributeError on extend/update) the
+    result is a new container of the same class built from the collected values -- on every path through such a handler the
+    returned value is <new_parent's class>(<values>)."""
+    de = prog.func(M + '.default_exit')
+    from rules.common import TryRaises
+    w, paths = paths_of(prog, de, model=TryRaises(prog, de))
+    n = 0
+    newp = de.params[3] if len(de.params) > 3 else 'new_parent'
+    for p in paths:
+        if p.kind != 'return' or not any(o.kind == 'except' and o.info == 'AttributeError' for o in p.ops):
+            continue
+        n += 1
+        e = w.expand(p.outcome[1], literals=True) if p.outcome[1] is not None else None
+        ok = isinstance(e, ast.Call) and txt(e.func) in ('%s.__class__' % newp, 'type(%s)' % newp) and len(e.args) == 1
+        ctx.ob('T20.rebuild', de.fq, 'an immutable parent (extend/update raises AttributeError) is rebuilt as a new container of the same '
+               'class from the collected values', ok, loc=de.loc, detail='returns %s' % txt(e)[:80], path=p.describe() if not ok else None)
+    if n == 0:
+        ctx.unknown('T20.rebuild', de.fq, 'no AttributeError fallback path found', de.loc)
+
+
 def run(ctx):
+    immutable_rebuild(ctx, ctx.program)
     from rules.common import check_sentinel_default as _csd
     _csd(ctx, ctx.program, ctx.program.func('iterutils.get_path'))
     prog = ctx.program
